@@ -100,7 +100,7 @@ def get_attr(eng, o, attr, node):
             if eng.contract.missing_attr_raises:
                 raise RaiseExc("AttributeError", (), node, implicit=True)
             raise EngineError("object has no field %s at %s" % (attr, eng._anchor(node)))
-        if k in ("pattern", "match"):
+        if k in ("pattern", "match", "cipher"):
             return BuiltinMethod(o, attr)
         if k == "path":
             if attr == "parts":
@@ -729,6 +729,22 @@ def call_method(eng, o, name, args, kwargs, node):
             return dict_method(eng, o, name, args, kwargs, node)
         if k == "bytearray":
             return bytearray_method(eng, o, name, args, kwargs, node)
+        if k == "cipher":
+            if name in ("encrypt", "decrypt"):
+                x = args[0]
+                x = seq_content(eng, x) if isinstance(x, Ref) else x
+                # Cryptodome AES-CBC: the data length must be a multiple of the 16-byte block (else ValueError)
+                eng.safety(V.L(x) % 16 == 0, "ValueError", "cipher-input-aligned", node)
+                fed = eng.get_field(o, "fed")
+                fx = V.to_seq(fed, "byte", "bytes") if not isinstance(fed, SSeq) else fed
+                xx = V.to_seq(x, "byte", "bytes") if not isinstance(x, SSeq) else x
+                r = SSeq(V.uf("aes_cbc_stream_" + name, V.seq_sort("byte"), V.seq_sort("byte"), V.seq_sort("byte"))(fx.t, xx.t), "byte", "bytes")
+                eng.pc.append(z3.Length(r.t) == V._zi(V.L(x)))
+                eng.set_field(o, "fed", V.concat(fed, x))
+                eng.set_field(o, "out", V.concat(eng.get_field(o, "out"), r))
+                eng.event("cipher", name, o, (x,), {}, node, r)
+                return r
+            raise EngineError("cipher method %s" % name)
         if k == "pattern":
             if name == "match" and eng.get_field(o, "pattern") == UNIT_PATTERN:
                 return match_unit_pattern(eng, args[0], node)
